@@ -15,6 +15,15 @@ from fractions import Fraction
 SLACK = Fraction(1, 10 ** 12)       # relative to the magnitude of the inputs (float noise is ~1e-16 relative)
 
 
+def _listify(v, types):
+    """generators (lazy in the real code, eager in the model) are materialised, also inside result tuples"""
+    if isinstance(v, types.GeneratorType):
+        return list(v)
+    if isinstance(v, tuple):
+        return tuple(_listify(x, types) for x in v)
+    return v
+
+
 class NoReplay(Exception):
     pass
 
@@ -293,6 +302,14 @@ class CEval(object):
                 return min(exact(a) for a in (args if len(args) > 1 else args[0]))
             if name == 'max':
                 return max(exact(a) for a in (args if len(args) > 1 else args[0]))
+            if name == 'fmtd':
+                return str(int(args[0]))
+            if name == 'fmt0d':
+                return '%0*d' % (int(args[0]), int(args[1]))
+            if name == 'fmt0x':
+                return '%0*x' % (int(args[0]), int(args[1]))
+            if name == 'str_lower':
+                return args[0].lower()
             if name == 'floor':
                 import math
                 return math.floor(exact(args[0]))
@@ -355,8 +372,7 @@ def run(path):
         try:
             result = fn(**args)
             import types
-            if isinstance(result, types.GeneratorType):
-                result = list(result)
+            result = _listify(result, types)
         except Exception as e:      # noqa
             raised = e
         out['result'] = repr(result)[:2000]
